@@ -26,14 +26,14 @@ CONFIGS = {
         "dhcp": [(2, "wide"), (4, "deep")], "nbns": [(4, "wide")], "icmp4": [(2, "wide")],
         "ssdp": [(3, "wide"), (5, "deep")], "arp": [(1, "wide")], "llc": [(1, "wide")],
         "name": [(3, "wide"), (4, "deep")], "dnsmsg": [(2, "wide"), (4, "deep")],
-        "mcache": [(4, "wide")], "ping": [(4, "wide")],
+        "mcache": [(4, "wide"), (3, "ids")], "ping": [(4, "wide")],
     },
     "thorough": {
-        "ndp": [(3, "wide"), (5, "deep")], "lldp": [(3, "wide"), (5, "deep")], "hbh": [(4, "wide"), (5, "deep")],
-        "dhcp": [(3, "wide"), (4, "deep")], "nbns": [(4, "wide")], "icmp4": [(2, "wide")],
+        "ndp": [(2, "wide"), (3, "wide"), (5, "deep")], "lldp": [(3, "wide"), (5, "deep")], "hbh": [(4, "wide"), (5, "deep")],
+        "dhcp": [(2, "wide"), (3, "wide"), (4, "deep")], "nbns": [(4, "wide")], "icmp4": [(2, "wide")],
         "ssdp": [(4, "wide"), (5, "deep")], "arp": [(1, "wide")], "llc": [(1, "wide")],
         "name": [(4, "wide"), (5, "deep")], "dnsmsg": [(3, "wide"), (5, "deep")],
-        "mcache": [(5, "wide")], "ping": [(5, "wide")],
+        "mcache": [(5, "wide"), (3, "ids")], "ping": [(5, "wide")],
     },
 }
 C17_WALKERS = ["name", "dnsmsg", "nbns", "mcache"]
